@@ -60,7 +60,7 @@ class LogicalSolver:
         with UnitEnvironment(self.env.units):
             operators = {
                 'par': OperatorPar,        # should be the last of parenthesis operators
-                'eq': OperatorEq, 'ne': OperatorNe,
+                'eq': CustomEq, 'ne': OperatorNe,
                 'not': CustomNot,          # needs to be after OperatorNe
                 'le': OperatorLe, 'ge': OperatorGe,
                 'lt': OperatorLt, 'gt': OperatorGt,
@@ -69,6 +69,12 @@ class LogicalSolver:
             with ExpressionSolver(self._eval_node, operators) as es:
                 return es.solve(expr)
                 
+
+class CustomEq(OperatorEq):
+    def operate_binary(self, tokens):
+        # the datatypes compare with a plain bool; wrap it like the other comparisons do
+        left, right = tokens.get_left(), tokens.get_right()
+        tokens.put_left(BooleanType(bool(left == right)))
 
 class CustomNot(OperatorNot):
     symbol: str = Sign.NEGATE
